@@ -37,6 +37,7 @@ type FConn struct {
 	paused         atomic.Bool
 	cutWrites      int // <0: off; otherwise this many more Write calls go through, then the budget becomes cutExtra
 	cutExtra       int64
+	pauseWrites    int // 0: off; otherwise the pause mark is set once this many more Write calls have completed
 }
 
 type timeoutErr struct{}
@@ -130,6 +131,14 @@ func (c *FConn) Write(p []byte) (int, error) {
 	if err != nil {
 		c.writeFailed.Store(true)
 	}
+	c.mu.Lock()
+	if c.pauseWrites > 0 {
+		c.pauseWrites--
+		if c.pauseWrites == 0 && c.gate != nil {
+			c.pauseAt = c.written.Load()
+		}
+	}
+	c.mu.Unlock()
 	return n, err
 }
 
@@ -181,6 +190,24 @@ func (c *FConn) PauseAfter(n int64) {
 	c.mu.Unlock()
 }
 
+// PauseAfterWrites is PauseAfter counted in Write calls instead of bytes: k more calls go
+// through, the one after them blocks until Resume (the teamserver's events are far smaller
+// than gorilla's write buffer, so one call is one websocket message; k = 0 blocks the next).
+func (c *FConn) PauseAfterWrites(k int) {
+	c.mu.Lock()
+	if c.gate == nil {
+		c.gate = make(chan struct{})
+	}
+	if k <= 0 {
+		c.pauseAt = c.written.Load()
+		c.pauseWrites = 0
+	} else {
+		c.pauseAt = -1
+		c.pauseWrites = k
+	}
+	c.mu.Unlock()
+}
+
 // Paused: a write of the server is blocked at the pause mark right now.
 func (c *FConn) Paused() bool { return c.paused.Load() }
 
@@ -191,6 +218,7 @@ func (c *FConn) Resume() {
 		c.gate = nil
 	}
 	c.pauseAt = -1
+	c.pauseWrites = 0
 	c.mu.Unlock()
 }
 
